@@ -336,12 +336,21 @@ static inline Rat exact_det(std::vector<std::vector<Rat>> a) {
     return det;
 }
 // families: 0 strictly diagonally dominant (every pivot-free LU exists), 1 a row permutation of family 0 (the
-// static pivot search undoes it), 2 random small integers (Simple only), 3 lower*upper with unit/pm1 diagonals
+// static pivot search undoes it), 2 random small integers (Simple n <= 4 only), 3 family 0 with a tie in one pivot column
 template<size_t M> static inline void int_matrix(int fam, uint32_t& s, long a[M][M]) {
     long d[M][M];
     for (size_t i = 0; i < M; ++i) for (size_t j = 0; j < M; ++j) d[i][j] = (long)(rnd(s) % 7) - 3;
     if (fam == 2) { for (size_t i = 0; i < M; ++i) for (size_t j = 0; j < M; ++j) a[i][j] = d[i][j]; return; }
     for (size_t i = 0; i < M; ++i) { long sum = 0; for (size_t j = 0; j < M; ++j) if (j != i) sum += std::labs(d[i][j]); d[i][i] = ((rnd(s) & 1) ? 1 : -1) * (sum + 1 + (long)(rnd(s) % 3)); }
+    if (fam == 3 && M >= 2) {
+        // a tie in the static pivot search: |A(i,j)| == |A(j,j)| for one i > j (the search must keep the FIRST maximum, and
+        // count_swaps must agree with it); row i stays strictly diagonally dominant, so the pivot-free LU still exists
+        size_t j = rnd(s) % (M - 1), i = j + 1 + rnd(s) % (M - 1 - j);
+        long t = std::labs(d[j][j]);
+        long old = std::labs(d[i][j]);
+        d[i][j] = (rnd(s) & 1) ? t : -t;
+        d[i][i] += (d[i][i] > 0 ? 1 : -1) * (t - old > 0 ? t - old : 0);
+    }
     size_t perm[M]; for (size_t i = 0; i < M; ++i) perm[i] = i;
     if (fam == 1) for (size_t i = M; i > 1; --i) std::swap(perm[i - 1], perm[rnd(s) % i]);
     for (size_t i = 0; i < M; ++i) for (size_t j = 0; j < M; ++j) a[i][j] = d[perm[i]][j];
@@ -349,7 +358,8 @@ template<size_t M> static inline void int_matrix(int fam, uint32_t& s, long a[M]
 template<size_t M, int TYPE>
 void run_detrat(uint32_t ds) {
     static const char* tname[] = {"simple", "lu", "qr"};
-    for (int fam = 0; fam < ((TYPE == 0 && M <= 4) ? 3 : 2); ++fam) {
+    for (int fam = 0; fam < 4; ++fam) {
+        if (fam == 2 && !(TYPE == 0 && M <= 4)) continue;
         std::string head = "detrat cfg=" CFGNAME " n=" + std::to_string(M) + " type=" + tname[TYPE] + " fam=" + std::to_string(fam) + " ds=" + std::to_string(ds);
         guarded(head, [&]{
             std::string fails;
@@ -432,7 +442,7 @@ void run_detreal(uint32_t ds) {
         std::string fails; double worst = 0;
         for (int rep = 0; rep < 8; ++rep) {
             uint32_t s = ds * 32452843u + rep * 613u + (uint32_t)M;
-            int fam = (TYPE == 0 && M <= 4) ? (rep % 3) : (rep % 2);   // M > 4: Simple dispatches to the statically pivoted LU
+            int fam = (TYPE == 0 && M <= 4) ? (rep % 4) : (rep % 3 == 2 ? 3 : rep % 3);   // M > 4: Simple dispatches to the statically pivoted LU
             long a[M][M]; int_matrix<M>(fam, s, a);
             Tensor<T,M,M> A; std::vector<std::vector<Rat>> ref(M, std::vector<Rat>(M));
             for (size_t i = 0; i < M; ++i) for (size_t j = 0; j < M; ++j) { A(i,j) = (T)a[i][j]; ref[i][j] = Rat(a[i][j]); }
